@@ -280,6 +280,22 @@ pub fn generate(thorough: bool) -> (String, usize) {
     .unwrap();
     cases.push("case_blockdoc".into());
     n_types += 2;
+    // inline (anonymous) struct and enum types, as the `Type` derive describes them - with the doc
+    // comments of their fields - used NESTED in an interface: as a method parameter, inside `?` / `[]`
+    // / `[string]`, as an error field; the assembled interface renders to text that parses back equal
+    {
+        let n_inline = struct_names.len().min(if thorough { 80 } else { 20 });
+        for k in 0..n_inline {
+            let k = struct_names[k].0.clone();
+            let en = 0;
+            writeln!(
+                s,
+                "pub fn case_inline_nested_{k}(sink: &mut Sink<'_>) {{\n    let t: &'static idl::Type<'static> = <An{k} as Type>::TYPE;\n    let e: &'static idl::Type<'static> = <EnA{en} as Type>::TYPE;\n    let p = |name: &'static str, ty: idl::Type<'static>| idl::Parameter::new_owned(name, ty, vec![]);\n    let m = idl::Method::new_owned(\"Put\", vec![p(\"plain\", t.clone()), p(\"opt\", idl::Type::Optional(idl::TypeRef::new(t))), p(\"pick\", e.clone())], vec![p(\"list\", idl::Type::Array(idl::TypeRef::new(t))), p(\"named\", idl::Type::Map(idl::TypeRef::new(t)))], vec![]);\n    let er = idl::Error::new_owned(\"Bad\", vec![idl::Field::new_owned(\"place\", t.clone(), vec![])], vec![]);\n    let iface = idl::Interface::new_owned(\"org.c.Inline{k}\", vec![m], vec![], vec![er], vec![]);\n    check_interface(sink, \"Inline{k}\", &iface);\n}}"
+            )
+            .unwrap();
+            cases.push(format!("case_inline_nested_{k}"));
+        }
+    }
     // long member lists: an enum of 14 variants and a struct of 10 fields with long names - their
     // one-line rendering is far wider than any line width somebody might wrap at
     {
